@@ -140,7 +140,9 @@ def calls_C04(g, mb):
     # flag cleared after UpdateKinematicsCustom(Q)
     c.append("poison %d" % g.r.randint(1, 10 ** 6))
     c.append("call UKC 1")
-    for bid in all_ids(mb, g, 2):
+    for bid in all_ids(mb, g, 2) + list(mb.fixed_ids)[:2]:
+        # base-to-body first: nothing an orientation query may have cached for a fixed body is needed
+        c.append("call BASE2B %d %s 0" % (bid, G.point(g)))
         c.append("call B2B %d %s 0" % (bid, G.point(g)))
         c.append("call ORI %d 0" % bid)
     return c
@@ -493,6 +495,11 @@ def gen_C15(seed, tier):
         state = mb.state_lines() + [mb.fext_line(0.3)]
         calls = ["call ID", "call CRBA 1", "call FD", "call COM 1"]
         grav = "gravity %s" % G.frs(g.vec(-3, 3))
+        if i % 2 == 1:
+            # dynamics routines run on the model before the setters are used (composite inertias, articulated
+            # inertias and the other scratch arrays hold values of an earlier state)
+            setlines = mb.state_lines() + ["call CRBA 1", "call FD", "call COM 1"] + setlines
+            g.stats["set:after-dynamics-calls"] += 1
         ca, cb = "c15setA_%d" % i, "c15setB_%d" % i
         out.append("case " + ca); out.append(grav); out += mb.lines; out += setlines; out += state; out += calls
         linesB = list(mb.lines)
@@ -500,7 +507,7 @@ def gen_C15(seed, tier):
             idx, prefix, _, name = mb.body_ops[bid]
             linesB[idx] = "%s %s %s" % (prefix, G.frs(body), name)
         out.append("case " + cb); out.append(grav); out += linesB; out += state; out += calls
-        out.append("#twin %s %s" % (ca, cb))
+        out.append("#twinlast %s %s %d" % (ca, cb, len(calls)))
         sigs.add((tuple(mb.kinds), tuple(l.split()[0] for l in setlines)))
         if len(samples) < 3:
             samples.append({"case": ca, "setters": setlines, "joints": [list(k) for k in mb.kinds]})
@@ -605,6 +612,9 @@ CS_CLASSES = [  # (tag, loop classes, number of contact points)
     ("loopd5c", ["d5c"], 0),
 ]
 CS_CLEAN = [c for c in CS_CLASSES if "d5" not in c[0]]
+# contact sets on trees with user-defined joints, contact points on several bodies (the test-force sweeps of the
+# Kokkevis routine keep per-joint scratch state in the custom joint objects)
+CS_C08 = CS_CLASSES + [("contactcust", [], 3), ("contactcust", [], 2)]
 
 
 
@@ -645,12 +655,31 @@ def gen_cs(prefix, seed, tier, nq, nt, calls_fn, classes, fext_prob=0.0, baumgar
         tag, klasses, ncont = classes[i % len(classes)]
         i += 1
         bg = bool(klasses) and g.r.random() < baumgarte_prob
-        r = G.constrained_case(g, klasses, ncont, baumgarte=bg, need_free=need_free)
+        cust = tag.endswith("cust")
+        r = G.constrained_case(g, klasses, ncont, baumgarte=bg, need_free=need_free, allow_custom=cust,
+                               max_joints=5 if cust else 4,
+                               forced_inner=g.r.choice(["CustomRevX", "CustomEulerZYX", "CustomCyl"]) if cust else None)
         if r is None:
             g.stats["rejected:" + tag] += 1
             continue
         mb, grav, st, cb = r
         clines = interleave_groups(list(cb.lines), random.Random(seed * 7907 + made), g.stats)
+        if bg or (baumgarte_prob > 0 and not klasses and made % 3 == 0):
+            # Baumgarte stabilisation switched on for contact groups as well (velocity-level rows: the documented
+            # term is -2/T * errd, the position error of a contact being zero)
+            grp, last = [], {}
+            for l in clines:
+                t = l.split()
+                if t[0] not in ("cs_contact", "cs_loop"):
+                    continue
+                key = tuple(t[:5]) if t[0] == "cs_contact" else tuple(t[:27])
+                if grp and last.get(t[0]) == key and grp[-1][0] == t[0] and grp[-1][1] == key:
+                    continue                      # merged into the last group (it is the last of the set)
+                grp.append((t[0], key)); last[t[0]] = key
+            for k, (ty, _) in enumerate(grp):
+                if ty == "cs_contact":
+                    clines.append("cs_bg %d %s" % (k, G.fr(g.r.choice([F(1, 10), F(1, 5), F(1, 2)]))))
+                    g.stats["constraint:contact-baumgarte"] += 1
         body = clines + ["cs_bind"] + st
         if g.r.random() < fext_prob:
             body.append(mb.fext_line(0.4))
@@ -675,6 +704,13 @@ def calls_C09(g, mb, cb):
     # the reported position error OFF the manifold (the documented quantity: relative displacement and
     # sine-scaled relative rotation in predecessor-frame axes); only the error is compared there
     c += [mb.render_q(mb.perturb_q(cb.q_ents, F(1, 4))), "call CPE 1 1"]
+    # ... and the system back on the position manifold but off the velocity manifold (a generalized velocity that does not satisfy the
+    # constraints): velocity error and gamma with a non-zero Baumgarte velocity term on every stabilised group
+    # (contact-only sets: for a loop G qd = d phi/dt holds on the position manifold only, so the derivative of
+    # G qd and the second derivative of phi part ways along a motion that leaves it -- outside the property)
+    if not cb.has_loop:
+        c += [mb.render_q(cb.q_ents),
+              "qd %d %s" % (mb.nv, G.frs([g.small() for _ in range(mb.nv)])), "call CVE 1 1", "call CSV 1 1"]
     return c
 
 
@@ -703,7 +739,7 @@ def calls_C08(g, mb, cb):
 
 
 def gen_C08(seed, tier):
-    return gen_cs("c08", seed, tier, 32, 200, calls_C08, CS_CLASSES, fext_prob=0.4, baumgarte_prob=0.3)
+    return gen_cs("c08", seed, tier, 33, 200, calls_C08, CS_C08, fext_prob=0.4, baumgarte_prob=0.3)
 
 
 
@@ -727,6 +763,18 @@ def calls_C10(g, mb, cb):
     # the per-body impulses of the impulse multipliers just computed (ConstraintSet::calcImpulses): CI.map
     c.append("call CI 1 1")
     c.append("call CI 0 0")
+    # (d) system at rest, prescribed v+; and (e) only a few coordinates moving, v+ = 0: right-hand sides with
+    # exact zeros (joints that no constraint touches still have to follow through the inertial coupling)
+    c.append("qd %d %s" % (nv, G.frs([F(0)] * nv)))
+    for method in (0, 1, 2):
+        c.append("call IMP %d" % method)
+    sparse = [F(0)] * nv
+    for k in g.r.sample(range(nv), max(1, nv // 3)):
+        sparse[k] = g.small()
+    c.append("qd %d %s" % (nv, G.frs(sparse)))
+    c.append("cs_vplus %d %s" % (nc, G.frs([F(0)] * nc)))
+    for method in (0, 1, 2):
+        c.append("call IMP %d" % method)
     return c
 
 
@@ -1542,6 +1590,30 @@ def custom_C20(seed, tier, ctx):
     if mism:
         viol.append(({"kind": "monitor", "message": "result differs from the solo run: " + "; ".join(mism[:5]),
                       "case": text, "replay_cmd": "<driver_threads> %d < case" % rounds}, "monitor"))
+    # (c) copies of a constraint set: a set obtained with Copy(), bound to a second model and used there, between
+    # the calls on the original (model, set) pair -- the original must return bit-identical results
+    exe_d = build_harness.build("quick", "driver")
+    if exe_d is not None:
+        gc = G.Gen(seed + 5)
+        cs2 = gen_cs("c20copy", seed + 6, tier, 10, 40, calls_C08, CS_CLEAN)[0]
+        plain = [l for l in cs2.splitlines() if not l.startswith("#")]
+        probed = []
+        for l in plain:
+            probed.append(l)
+            if l == "cs_bind" or (l.startswith("call FDC") and gc.r.random() < 0.5):
+                probed.append("cs_copyprobe %s" % G.fr(gc.r.choice([F(1, 4), F(-1, 2), F(3, 4)])))
+        ra = subprocess.run([exe_d], input="\n".join(plain) + "\n", capture_output=True, text=True, timeout=900)
+        rb = subprocess.run([exe_d], input="\n".join(probed) + "\n", capture_output=True, text=True, timeout=900)
+        la, lb = ra.stdout.splitlines(), rb.stdout.splitlines()
+        diff = [(a, b) for a, b in zip(la, lb) if a != b]
+        cov["copy_probe"] = {"cases": sum(1 for l in plain if l.startswith("case ")), "probes": sum(1 for l in probed if l.startswith("cs_copyprobe")),
+                             "lines_compared": min(len(la), len(lb)), "differing": len(diff)}
+        cov["evaluations"] += min(len(la), len(lb))
+        if rb.returncode != 0 or len(la) != len(lb) or diff:
+            msg = ("driver exited with %d / %d output lines vs %d" % (rb.returncode, len(lb), len(la))) if not diff else \
+                  "after a copy of the constraint set was bound to a second model and used there, the original pair returns a different result: %s  vs  %s" % (diff[0][0][:300], diff[0][1][:300])
+            viol.append(({"kind": "monitor", "message": msg, "case": "\n".join(probed) + "\n",
+                          "replay_cmd": "<driver> < case, compared with the same text without the cs_copyprobe lines"}, "monitor"))
     # thorough: ThreadSanitizer
     if tier == "thorough":
         exe_t = build_harness.build("tsan", "driver_threads", lua)
